@@ -490,7 +490,7 @@ def run(rep: Report, tier: str) -> None:
     c07.run(sub, tier)
     rep.absorb(sub, rh, ("C07.a", "C07.b", "C07.c", "C07.d"), "balance replay")
     # numbers inside link formulas are the computed values, unformatted
-    rg = rep.rule("C13.g", "hyperlinked numeric cells carry the computed value unformatted inside the formula", floor=4)
+    rg = rep.rule("C13.g", "hyperlinked numeric cells carry the computed value unformatted inside the formula", floor=4, follows_calls=True)
     saved = set(norm.opaque_funcs)
     norm.opaque_funcs -= {HYPER_T, HYPER_S}
     try:
